@@ -34,6 +34,7 @@ fn header_once(src: String) -> Result<String, String> {
 }
 
 pub fn run_header(src: &str) -> Outcome {
+    crate::note_case("c12_header", json!({"text": src}));
     let (tx, rx) = mpsc::channel();
     let s = src.to_string();
     std::thread::spawn(move || { let _ = tx.send(header_once(s)); });
@@ -95,6 +96,7 @@ fn lex_once(src: String) -> Result<String, String> {
 }
 
 pub fn run_lex(src: &str) -> Outcome {
+    crate::note_case("c12_lex", json!({"text": src}));
     let (tx, rx) = mpsc::channel();
     let s = src.to_string();
     std::thread::spawn(move || { let _ = tx.send(lex_once(s)); });
@@ -169,6 +171,7 @@ fn yacc_once(src: String) -> Result<String, String> {
 }
 
 pub fn run_yacc(src: &str) -> Outcome {
+    crate::note_case("c12_yacc", json!({"text": src}));
     let (tx, rx) = mpsc::channel();
     let s = src.to_string();
     std::thread::spawn(move || { let _ = tx.send(yacc_once(s)); });
